@@ -66,3 +66,65 @@ def convert_form(form_dict, **kw):
         return "pyxerr", e
     except Exception as e:  # noqa: BLE001
         return "crash", e
+
+
+# ---- semantic XForm equality (DESIGN.md Appendix D) ------------------------------------------------------------------
+def _local(e):
+    return etree.QName(e).localname if isinstance(e.tag, str) else "#other"
+
+
+def semantic_canon(xml: str, item_children_ordered: bool = True):
+    """Nested tuples equal for semantically equal XForms: attribute order and the order of namespace declarations ignored; inside
+    `model` the order of bind / setvalue / action / secondary instance elements among themselves ignored, as is the order of
+    translation (by lang), text (by id) and value (by form); everything else — primary instance, body, items — ordered; text exact."""
+    root = lparse(xml)
+
+    def key_of(e):
+        return (e.tag, e.get("nodeset") or e.get("ref") or e.get("id") or e.get("lang") or e.get("form") or "")
+
+    def canon(e, where):
+        if not isinstance(e.tag, str):
+            return ("#other", etree.tostring(e).decode())
+        kids = [c for c in e if isinstance(c.tag, str)]
+        texts = [e.text or ""] + [c.tail or "" for c in e]
+        ln = _local(e)
+        if e.tag == XF + "model":
+            first_inst = next((c for c in kids if c.tag == XF + "instance"), None)
+            fixed = [c for c in kids if c is first_inst or c.tag in (XF + "itext", XF + "submission")]
+            loose = [c for c in kids if c not in fixed]
+            ck = [canon(c, ln) for c in fixed] + sorted((canon(c, ln) for c in loose), key=repr)
+        elif e.tag in (XF + "itext", XF + "translation", XF + "text") and where != "instance-data":
+            ck = sorted((canon(c, ln) for c in kids), key=lambda t: repr(t[:2]))
+        elif ln == "item" and not item_children_ordered:
+            ck = sorted((canon(c, ln) for c in kids), key=repr)
+        else:
+            ck = [canon(c, ln) for c in kids]
+        if kids and all(is_ws(t) for t in texts):
+            texts = []
+        return (e.tag, tuple(sorted(e.attrib.items())), tuple(sorted((e.nsmap or {}).items(), key=lambda kv: (kv[0] or "", kv[1]))) if e is root else (),
+                tuple(texts), tuple(ck))
+    return canon(root, "")
+
+
+def first_difference(a, b, path=""):
+    """human-readable location of the first difference between two semantic_canon values"""
+    if a == b:
+        return None
+    if not (isinstance(a, tuple) and isinstance(b, tuple) and len(a) == 5 and len(b) == 5):
+        return f"{path}: {str(a)[:120]} vs {str(b)[:120]}"
+    if a[0] != b[0]:
+        return f"{path}: element {a[0]} vs {b[0]}"
+    here = f"{path}/{a[0].split('}')[-1]}" + (f"[{dict(a[1]).get('id') or dict(a[1]).get('ref') or dict(a[1]).get('nodeset') or dict(a[1]).get('lang') or ''}]" if a[1] else "")
+    if a[1] != b[1]:
+        return f"{here}: attributes {a[1]} vs {b[1]}"
+    if a[2] != b[2]:
+        return f"{here}: namespace declarations differ"
+    if a[3] != b[3]:
+        return f"{here}: text {a[3]} vs {b[3]}"
+    if len(a[4]) != len(b[4]):
+        return f"{here}: {len(a[4])} children vs {len(b[4])}"
+    for x, y in zip(a[4], b[4]):
+        d = first_difference(x, y, here)
+        if d:
+            return d
+    return f"{here}: differ"
